@@ -1923,7 +1923,9 @@ impl Formatter {
       if self.html {
         format!("<div class=\"mech-function-define\"><div class=\"mech-function-signature\"><span class=\"mech-function-name\">{}</span><span class=\"mech-left-paren\">(</span><span class=\"mech-function-input\">{}</span><span class=\"mech-right-paren\">)</span> <span class=\"mech-function-equals\">=</span> <span class=\"mech-function-output\">{}</span> <span class=\"mech-define-op\">:=</span></div><div class=\"mech-function-body\">{}.</div></div>", name, input, output, statements)
       } else {
-        format!("{}({}) = {} :=\n{}.", name, input, output, statements)
+        // a body that ends with a match expression already ends with that expression's own period and a line break:
+        // the function's period must follow it directly (`└ * ⇒ 0..`), a period on a line of its own does not parse
+        format!("{}({}) = {} :=\n{}.", name, input, output, statements.trim_end())
       }
     }
   }
